@@ -408,6 +408,46 @@ fn handler_level(r: &mut Report, work: &str, seed: u64, slow: bool) {
             }
         }
     }
+    // Frequent hits must not keep an entry alive beyond its time limit (seeded C16-M): the file is stored once, rewritten,
+    // and then requested every 200 ms for 3.6 s. A cache entry holding the old bytes can only have been stored before the
+    // rewrite, so 2.2 s after the rewrite (time limit 1 s + the clock's one-second granularity) no answer may carry them.
+    {
+        let mut c4 = Config::default();
+        c4.logging.console = false;
+        c4.logging.level = humphrey_server::server::logger::LogLevel::Error;
+        c4.cache.size_limit = 4096;
+        c4.cache.time_limit = 1;
+        let st4 = Arc::new(AppState::from(c4));
+        let hot = format!("{}/hot.txt", dir);
+        let (v1, v2) = (b"HV16|hot|version-one".to_vec(), b"HV16|hot|version-two".to_vec());
+        std::fs::write(&hot, &v1).unwrap();
+        let first = file_handler(mk_req("/hot.txt"), st4.clone(), &hot, 0);
+        std::fs::write(&hot, &v2).unwrap();
+        let rewritten = Instant::now();
+        let (mut late, mut late_stale, mut early_hits) = (0u64, 0u64, 0u64);
+        while rewritten.elapsed() < Duration::from_millis(3600) {
+            std::thread::sleep(Duration::from_millis(200));
+            let at = rewritten.elapsed();
+            let resp = file_handler(mk_req("/hot.txt"), st4.clone(), &hot, 0);
+            if at > Duration::from_millis(2200) {
+                late += 1;
+                if resp.body == v1 {
+                    late_stale += 1;
+                }
+            } else if resp.body == v1 {
+                early_hits += 1;
+            }
+        }
+        r.eval();
+        r.count("real_sleeps", 1);
+        r.count("frequent_hit_requests_after_the_time_limit", late);
+        r.count("frequent_hit_requests_served_from_cache_within_the_time_limit", early_hits);
+        if first.body != v1 {
+            r.inconclusive("frequent-hit scenario: the first request did not return the file");
+        } else if late_stale > 0 {
+            r.violation("C16/stale-hit:kept-alive-by-hits", format!("a file stored once (time limit 1 s), then rewritten and requested every 200 ms: {} of {} answers later than 2.2 s after the rewrite still carried the old bytes - hits keep the entry alive beyond the time limit", late_stale, late), J::Null, replay.clone());
+        }
+    }
     // direct expiry: an entry with time limit 1 must be gone after 2.1 s; with time limit 0 after one clock second
     let mut cache0 = mk_cache(100, 0);
     cache0.set("/z", 0, vec![5; 10], MimeType::from_extension("txt"));
@@ -753,6 +793,6 @@ pub fn main(args: &Args) {
         r
     });
     let total = Report::merge_all(reports);
-    let rule = format!("(a) every operation sequence of length {} over 24 operations (set x 3 keys x 2 hosts x 3 sizes {{0, limit/2, limit}}, get x 3 keys x 2 hosts) for size limits {{0,1,3,64}} (and 64 KiB on every 61st sequence) x time limits {{0,1,60}}, probing every key ever stored after every operation (so every shorter sequence is covered as a prefix), in the thorough tier also every sequence of length 6 for size limit 3 / time limit 60; (b) random sequences of 100..2000 operations over 32 keys x 2 hosts; (c) 1..8 threads through RwLock<Cache> as the handlers use it, unique values, per-key interval check; (d) file_handler/directory_handler with a cache-enabled AppState over files rewritten between requests, with real sleeps past the time limit, incl. stores over expired entries; (f) the real server binary with cache on and four virtual hosts whose directory routes sit at different route positions, each host with a second directory route /docs/* holding files of the same relative paths, the same URIs requested on every host in random order. non-trivial = at least two stores; distinct = distinct sequences / histories", maxlen);
+    let rule = format!("(a) every operation sequence of length {} over 24 operations (set x 3 keys x 2 hosts x 3 sizes {{0, limit/2, limit}}, get x 3 keys x 2 hosts) for size limits {{0,1,3,64}} (and 64 KiB on every 61st sequence) x time limits {{0,1,60}}, probing every key ever stored after every operation (so every shorter sequence is covered as a prefix), in the thorough tier also every sequence of length 6 for size limit 3 / time limit 60; (b) random sequences of 100..2000 operations over 32 keys x 2 hosts; (c) 1..8 threads through RwLock<Cache> as the handlers use it, unique values, per-key interval check; (d) file_handler/directory_handler with a cache-enabled AppState over files rewritten between requests, with real sleeps past the time limit, incl. stores over expired entries and a file requested every 200 ms across its entry's time limit; (f) the real server binary with cache on and four virtual hosts whose directory routes sit at different route positions, each host with a second directory route /docs/* holding files of the same relative paths, the same URIs requested on every host in random order. non-trivial = at least two stores; distinct = distinct sequences / histories", maxlen);
     total.write(out, &rule, Some(true), &["a hit's real age is bounded by time limit + 1 s (the cache clock has one-second resolution)", "with time limit 0 an item just stored may or may not be retrievable (the two clauses coincide only at age 0)", "exhaustive refers to part (a)", "stores larger than the size limit are not generated (the handlers never do that and the property quantifies sizes from 0 to the limit)"]);
 }
